@@ -347,7 +347,7 @@ func mutateOne(r *core.RNG, a invocation) (invocation, string) {
 		}
 		for _, o := range v.Opts {
 			if len(o) > 2 {
-				kinds = append(kinds, "permute")
+				kinds = append(kinds, "permute", "merge")
 				break
 			}
 		}
@@ -379,6 +379,14 @@ func mutateOne(r *core.RNG, a invocation) (invocation, string) {
 				if len(o) > 2 && o[1] != o[len(o)-1] {
 					v.Opts[i][1], v.Opts[i][len(o)-1] = o[len(o)-1], o[1]
 					return v, "permute-option-values"
+				}
+			}
+		case "merge": // two values of a repeatable option become one value holding a separator
+			for i, o := range v.Opts {
+				if len(o) > 2 {
+					joined := o[1] + pickS(r, []string{",", ";", " ", "|", ":"}) + o[2]
+					v.Opts[i] = append([]string{o[0], joined}, o[3:]...)
+					return v, "merge-option-values"
 				}
 			}
 		case "permute-pos":
